@@ -35,6 +35,15 @@ def check_spec(prop, spec, acc, roles, params, symptom_of, nontrivial_of, judge_
                 bad = (symptom_of(d[1], d[2]), "event #{}: expected {} observed {}".format(*d))
             elif judge_outcome and outcome != eoutcome:
                 bad = ("wrong_outcome", "expected outcome {} observed {}".format(eoutcome, outcome))
+            if bad is None and outcome[0] == "exc":
+                # history of length 2: the call ended with an error; the very same call made again in the same context
+                # must be observed identically both times (nothing of the first call may linger)
+                (l1, o1), (l2, o2) = prog.call_twice(truth, body_mode, mut, shape)
+                acc.bump("repeated_in_same_context")
+                if (fam.project(l1, roles), o1) != (plog, outcome) or (fam.project(l2, roles), o2) != (plog, outcome):
+                    which = "first" if (fam.project(l1, roles), o1) != (plog, outcome) else "second"
+                    bad = ("repeated_call_differs", "the call ends with {}; made twice in one context, the {} call was observed as {} -> {}".format(
+                        outcome, which, fam.project(l2 if which == "second" else l1, roles), o2 if which == "second" else o1))
             if bad:
                 acc.violation(core.Violation(
                     prop, bad[0], fam.feat(spec, shape, body_mode, mut),
